@@ -207,6 +207,11 @@ def check_property(prop, tier, seed, timeout_s):
     import re as _re
     for b in spec.get("bounded", []):
         status, path, text = hunt(b["oracle"], prop, seed, tier, "bounded:" + b["oracle"].partition("::")[2], b["what"])
+        for line in (text or "").split("\n"):
+            if line.startswith("KNOWN-FINDING-HIT "):
+                h = json.loads(line[len("KNOWN-FINDING-HIT "):])
+                known_seen.append({"obligation": "bounded:" + b["oracle"].partition("::")[2], "what": h["what"],
+                                   "reproduced_on_real_code": h["count"], "example": h["example"]})
         m = _re.search(r"in (\d+) cases", text or "")
         standins.append({"function": b["oracle"].partition("::")[2], "what": b["what"], "status": status,
                          "cases": int(m.group(1)) if m else None, "label": "bounded (not a proof)"})
